@@ -245,3 +245,24 @@ package definition
 //@   requires spork != nil
 //@   ensures context.sporkHas == store(old(context.sporkHas), spork.Id, true) && context.sporkActivated == store(old(context.sporkActivated), spork.Id, spork.Activated) && context.sporkHeight == store(old(context.sporkHeight), spork.Id, spork.EnforcementHeight)
 //@   modifies MF:common/db.DB.spork*
+
+// ---- token contract: token standard -> (owner, recorded total supply, max supply, mintable, burnable) (property C01) ---------
+//@ model github.com/zenon-network/go-zenon/common/db:DB tokenHas map[arr]bool
+//@ model github.com/zenon-network/go-zenon/common/db:DB tokenOwner map[arr]arr
+//@ model github.com/zenon-network/go-zenon/common/db:DB tokenTotal map[arr]int
+//@ model github.com/zenon-network/go-zenon/common/db:DB tokenMax map[arr]int
+//@ model github.com/zenon-network/go-zenon/common/db:DB tokenMintable map[arr]bool
+//@ model github.com/zenon-network/go-zenon/common/db:DB tokenBurnable map[arr]bool
+//@ func GetTokenInfo(context, ts) -> (info, err)
+//@   trusted
+//@   ensures err == nil ==> info != nil && fresh(info) && context.tokenHas[ts] && info.TokenStandard == ts && info.Owner == context.tokenOwner[ts] && info.IsMintable == context.tokenMintable[ts] && info.IsBurnable == context.tokenBurnable[ts]
+//@   ensures err == nil ==> info.TotalSupply != nil && fresh(info.TotalSupply) && info.MaxSupply != nil && fresh(info.MaxSupply) && info.TotalSupply != info.MaxSupply && val(info.TotalSupply) == context.tokenTotal[ts] && val(info.MaxSupply) == context.tokenMax[ts]
+//@   ensures err != nil ==> info == nil
+//@   ensures err == constants.ErrDataNonExistent <==> !context.tokenHas[ts]
+//@   modifies nothing
+//@ func TokenInfo.Save(token, context) -> (err)
+//@   trusted
+//@   requires token != nil && token.TotalSupply != nil && token.MaxSupply != nil
+//@   ensures err == nil ==> context.tokenHas == store(old(context.tokenHas), token.TokenStandard, true) && context.tokenOwner == store(old(context.tokenOwner), token.TokenStandard, token.Owner) && context.tokenTotal == store(old(context.tokenTotal), token.TokenStandard, val(token.TotalSupply)) && context.tokenMax == store(old(context.tokenMax), token.TokenStandard, val(token.MaxSupply)) && context.tokenMintable == store(old(context.tokenMintable), token.TokenStandard, token.IsMintable) && context.tokenBurnable == store(old(context.tokenBurnable), token.TokenStandard, token.IsBurnable)
+//@   ensures err != nil ==> context.tokenHas == old(context.tokenHas) && context.tokenTotal == old(context.tokenTotal) && context.tokenMax == old(context.tokenMax) && context.tokenOwner == old(context.tokenOwner)
+//@   modifies MF:common/db.DB.token*
